@@ -13,6 +13,7 @@ func init() { register("C12", checkC12) }
 
 func checkC12(c *Ctx) {
 	r := c.R
+	r.Rule("R03.3", "(shared with C03) record first: each Set/Add operation of the writer set stores into the list it names (SetErrorWriter installs the error list), so the destination Panic/Fatal are routed to is never left empty by the setter that names it")
 	r.Rule("R12.1", "termination decision: the decision function extracted from the function that prints and then terminates (logContext), over the atoms {inTesting, interrupt-always flag, no-interrupt flag, lvl==Panic, lvl==Fatal} and every other branch condition universally quantified, equals the property's table: panic(msg) for Panic, os.Exit(-3) for Fatal, only when (not testing or interrupt-always) and not no-interrupt; nothing otherwise")
 	r.Rule("R12.2", "record first: on every path that terminates, the emission call precedes the panic/exit")
 	r.Rule("R12.3", "only admitted calls terminate: the terminating function is reached only through the admission gate (shared with R01.1)")
@@ -41,6 +42,7 @@ func checkC12(c *Ctx) {
 		terminationKeepsWriters(c, p, m)
 		nilContextSafe(c, p, m, "R02.9")
 		testingPredicate(c, p)
+		c03Frames(c, p, m)
 	}
 	c.Floor["R12.1"] = 16
 	c.Floor["R12.5"] = 3
